@@ -54,6 +54,8 @@ func genAliasTree(r *rand.Rand, depth int) V {
 				ex = V{T: 's', S: fmt.Sprintf("v%d", nextLeaf)}
 			}
 			st.Xs = append(st.Xs, V{T: 'C', Form: forms[r.Intn(4)], Kw: fmt.Sprintf("k%d", nextLeaf), Op: "c1", Xs: []V{ex}})
+		case r.Intn(9) == 0:
+			st.Xs = append(st.Xs, V{T: 'N'})
 		default:
 			st.Xs = append(st.Xs, V{T: 's', S: fmt.Sprintf("v%d", nextLeaf)})
 		}
@@ -118,5 +120,10 @@ func runAlias(payload string) string {
 		_, c1 := stackage.ConvertCondition(x)
 		cv = append(cv, b01(s1)+b01(c1))
 	}
-	return fmt.Sprintf("A{%s} N{%s} Q%s V%s", obsAliasTree(a), obsAliasTree(n), q, strings.Join(cv, ","))
+	oa, on := obsAliasTree(a), obsAliasTree(n)
+	// Defrag must treat the alias tree like the native one (whatever it does to either)
+	a.Defrag()
+	n.Defrag()
+	da, dn := eraseV(Describe(a)).String(), eraseV(Describe(n)).String()
+	return fmt.Sprintf("A{%s} N{%s} Q%s V%s D%s", oa, on, q, strings.Join(cv, ","), b01(da == dn))
 }
